@@ -146,6 +146,11 @@ def run(ctx):
                 "directories, a polluted environment, and in one interpreter as run();run() on (A, A), (B, A) and (B aborted by an unwritable output path, B aborted by a missing key log, A); some QUIC connections use a server CID that extends the client's original DCID. One "
                 "evaluation = one run; non-trivial iff the capture has ≥ 2 QUIC CIDs or ≥ 2 sessions and a non-empty output.")
     ctx.assumptions = ["the CLI is started with `python -m tlexport.main` from the tree under test"]
+    import m1_mainloop
+    ctx.gen_tables.update(m1_mainloop.regen())      # reset statements of run() → lean/TLX/Gen/MainLoopConsts.lean
+    ctx.prove(["TLX.Props.C18"])
+    ctx.require_theorems([t for t in m1_mainloop.THEOREMS if t.startswith("TLX.Props.C18.")])
+    m1_mainloop.correspond(ctx)       # ties TLX.MainLoop to the real handle_packet / handle_quic_packet / run()
     explore(ctx)
     return ctx.finish(search=lambda c: explore(c, scale=2))
 
